@@ -617,7 +617,28 @@ def main(tier, replay=None):
     quick = tier == 'quick'
     rng = random.Random(run.seed)
     mechanism_matrix(run)
-    traces = []
+    class Flushing(list):
+        """the histories are judged 1500 at a time and forgotten (all of the thorough tier together took 16 GB)"""
+        total = 0
+        part = 0
+        first = None
+        last = None
+
+        def append(self, t):
+            list.append(self, t)
+            self.total += 1
+            if self.total == 4:
+                self.first = t['case']
+            self.last = t['case']
+            if len(self) >= 1500:
+                self.flush()
+
+        def flush(self):
+            if len(self):
+                core.validate_hist(run, list(self), 'p%d' % self.part, consts, engine='c03')
+                self.part += 1
+                del self[:]
+    traces = Flushing()
     # --- nesting: every callback point of every outer formula x inner formulas x same/other parser x depth
     outers, inners = outer_pool(), inner_pool()
     for oi, outer in enumerate(outers):
@@ -646,8 +667,8 @@ def main(tier, replay=None):
                                         c2 = dict(case, **extra)
                                         ev, _ = run_nested(lib, c2)
                                         traces.append({'tid': len(traces) + 1, 'ev': ev, 'case': c2})
-    run.extra['nesting_histories'] = len(traces)
-    DBG('nesting done', len(traces))
+    run.extra['nesting_histories'] = traces.total
+    DBG('nesting done', traces.total)
     # --- the listener hands the inner evaluation to another thread and waits for it
     ndel = nblocked = 0
     for oi, outer in enumerate(outers):
@@ -720,9 +741,7 @@ def main(tier, replay=None):
                 nshared += 1
     run.extra['shared_handler_histories'] = nshared
     DBG('shared done')
-    CH = 1500
-    for k in range(0, len(traces), CH):
-        core.validate_hist(run, traces[k:k + CH], 'p%d' % (k // CH), consts, engine='c03')
+    traces.flush()
     # --- many evaluations in flight at once, one parser object each
     crowd = []
     for n in ((40,) if quick else (40, 70, 130)):
@@ -748,5 +767,5 @@ def main(tier, replay=None):
         core.validate_hist(run, [{'tid': 1, 'ev': ev, 'case': case}], 'busy%d' % rep, consts, engine='c03', parsers=names)
     run.extra['busy_against_fresh_interpreter'] = 4 if quick else 30
     run.exhaustive = True
-    run.samples = [{'case': traces[3]['case']}, {'case': traces[-1]['case']}]
+    run.samples = [{'case': traces.first}, {'case': traces.last}]
     return run.finish()
